@@ -53,7 +53,11 @@ def generate(seed_: int, run: int, reactions: list[str], deep: bool = False) -> 
                 op["any"] = True
             if kind == "bound" and rng.random() < 0.4:
                 op["onto_bound"] = True
+            op["form"] = rng.choices(["dict", "list", "zip", "generator", "items", "shared"], weights=[5, 1, 1, 1, 1, 2])[0]
             ops.append(op)
+        elif r < 0.66:
+            ops.append({"op": "transient", "slot": slot, "pick": rng.randrange(500)})
+            ops.append({"op": "clone", "slot": rng.randrange(64), "how": rng.choice(["pickle", "deepcopy"])})
         elif r < 0.85:
             ops.append({"op": "set", "slot": slot, "pick": rng.randrange(500),
                         "how": rng.choice(["symbol", "name", "index"]),
